@@ -567,9 +567,21 @@ func (g *Gen) applyContract(con *Contract, c *ssa.CallCommon, in ssa.Instruction
 	if len(con.Params) > len(all) {
 		g.fail("contract %s names %d parameters, call passes %d", con.Key, len(con.Params), len(all))
 	}
-	for i, n := range con.Params {
-		if n != "_" {
-			env[n] = all[i]
+	bound := false
+	if callee := c.StaticCallee(); callee != nil && !c.IsInvoke() && len(callee.FreeVars)+len(callee.Params) == len(all) && e2contractIsFor(con, callee, g.eng) {
+		// same name-first binding as when the callee itself is verified
+		for i, n := range contractBinding(callee, con.Params) {
+			if n != "" && n != "_" {
+				env[n] = all[i]
+			}
+		}
+		bound = true
+	}
+	if !bound {
+		for i, n := range con.Params {
+			if n != "_" {
+				env[n] = all[i]
+			}
 		}
 	}
 	pre := g.cur.clone()
@@ -866,4 +878,10 @@ func funcNamesObj(obj types.Object) []string {
 		}
 	}
 	return []string{"(" + bare + ")." + fn.Name(), "(" + rt + ")." + fn.Name()}
+}
+
+
+// e2contractIsFor: con is the (non-interface, non-functype) contract of callee itself.
+func e2contractIsFor(con *Contract, callee *ssa.Function, e *Engine) bool {
+	return !con.IsIface && !con.IsFuncType && e.contractFor(callee) == con
 }
